@@ -205,7 +205,7 @@ fn child_race(args: &Args) {
         let mut failed = false;
         for (t, h) in hs.into_iter().enumerate() {
             while !h.is_finished() {
-                if t0.elapsed().as_secs() > 30 {
+                if t0.elapsed().as_secs() > 30 * run::slow_factor() {
                     out.inconclusive(format!("racing scenario {s} of shard {} did not finish in 30 s", args.shard));
                     out.emit();
                     std::process::exit(0);
